@@ -1442,4 +1442,19 @@ theorem colrVarIndexPreFix_isSome_iff (base i : Int) (hb : U32 base) (hi : 0 ≤
 theorem colrVarIndexPreFix_traps_at : colrVarIndexPreFix 4294967294 2 = none := by decide
 example : colrVarIndex 4294967294 2 = some 4294967295 := by decide
 
+/-! ## the rejection guard of `resolve_coords_len` is exactly the no-trap condition of `flags_left -= repeats` -/
+
+/-- `if repeats > flags_left { return Err }` guards the raw `flags_left -= repeats` (u32) at the end of the
+loop body: the subtraction is defined iff the guard does not fire.  A clamp of `repeats` that is not also
+applied to this line (seeded change C20-4) leaves every overshooting repeat count trapping. -/
+theorem flagsLeft_sub_isSome_iff (flagsLeft repeats : Int) (hf : U32 flagsLeft) (hr : 0 ≤ repeats) :
+    (u32.sub flagsLeft repeats).isSome ↔ ¬ (repeats > flagsLeft) := by
+  unfold U32 at hf
+  simp only [IntTy.sub, chk_isSome_iff, IntTy.inR, u32]
+  omega
+
+/-- with the guard, a byte whose repeat count overshoots is a rejection (`some none`), never a trap -/
+example : resolveCoordsLen [0x09, 5, 0, 0] 2 = some none := by decide
+example : resolveCoordsLen [0x09, 1, 0, 0] 2 = some (some (2, 4, 4)) := by decide
+
 end FontVerif.C20
